@@ -956,3 +956,123 @@ Proof.
   intros strict sk H fid cps body r T orc s k Hi.
   apply discipline_safe; auto. apply Dc_prim_D. exact (tree_Dc strict sk H fid cps body r T).
 Qed.
+
+(* ------------------------------------------------------------------ building call trees by computation *)
+Definition dom_inb (gps : list var) (args : list (option var)) (v : var) : bool :=
+  match lookup (bind gps args) v with Some _ => true | None => negb (mem v gps) end.
+
+Lemma dom_inb_ok gps args v : dom_inb gps args v = true -> dom_in gps args v.
+Proof.
+  unfold dom_inb, dom_in. destruct (lookup (bind gps args) v); intros H; [left; discriminate|].
+  right. apply mem_false. apply negb_true_iff. exact H.
+Qed.
+
+Definition site_okb (cps gps : list var) (pre : list ev) (args : list (option var)) (ret : option var) (k : nat)
+           (qbody : list ev) (qret : option var) : bool :=
+  Nat.eqb (length args) (length gps) && nodup_nat (somes args) &&
+  forallb (fun a => Nat.ltb a k) (somes args) && forallb (fun c => Nat.ltb c k) cps &&
+  forallb (fun e => forallb (fun v => Nat.ltb v k) (ev_vars e)) (expand pre) &&
+  match ret with
+  | Some r => Nat.ltb r k && negb (mem r (somes args)) && match qret with Some _ => true | None => false end
+  | None => match qret with None => true | Some _ => false end
+  end &&
+  forallb (fun e => forallb (dom_inb gps args) (ev_vars e)) (expand qbody) &&
+  match qret with Some v => dom_inb gps args v | None => true end.
+
+Lemma site_okb_ok cps gps pre args ret k qbody qret :
+  site_okb cps gps pre args ret k qbody qret = true -> site_ok cps gps pre args ret k qbody qret.
+Proof.
+  unfold site_okb. rewrite !andb_true_iff. intros [[[[[[[H1 H2] H3] H4] H5] H6] H7] H8].
+  rewrite forallb_forall in H3, H4, H5, H7. constructor.
+  - apply Nat.eqb_eq; auto.
+  - apply nodup_nat_NoDup; auto.
+  - intros a Ha. apply Nat.ltb_lt. auto.
+  - intros c Hc. apply Nat.ltb_lt. auto.
+  - intros e He v Hv. specialize (H5 e He). rewrite forallb_forall in H5. apply Nat.ltb_lt. auto.
+  - destruct ret as [r|].
+    + rewrite !andb_true_iff in H6. destruct H6 as [[A B] C]. apply Nat.ltb_lt in A. apply negb_true_iff in B.
+      apply mem_false in B. repeat split; auto. destruct qret; [discriminate | discriminate].
+    + destruct qret; [discriminate | reflexivity].
+  - intros e He v Hv. specialize (H7 e He). rewrite forallb_forall in H7. apply dom_inb_ok. auto.
+  - intros v Hv. subst qret. apply dom_inb_ok. auto.
+Qed.
+
+Fixpoint first_call (p : list ev) : option (list ev * nat * list (option var) * option var * list ev) :=
+  match p with
+  | [] => None
+  | ECall g args ret :: post => Some ([], g, args, ret, post)
+  | e :: p' => match first_call p' with
+               | Some (pre, g, args, ret, post) => Some (e :: pre, g, args, ret, post)
+               | None => None
+               end
+  end.
+
+Lemma first_call_eq p : forall pre g args ret post,
+  first_call p = Some (pre, g, args, ret, post) -> p = pre ++ ECall g args ret :: post.
+Proof.
+  induction p as [|e p IH]; intros pre g args ret post H; [discriminate|].
+  destruct e; cbn [first_call] in H;
+    try (destruct (first_call p) as [[[[[pre' g'] args'] ret'] post']|]; [|discriminate];
+         inversion H; subst; cbn; f_equal; apply IH; reflexivity).
+  inversion H; subst. reflexivity.
+Qed.
+
+Definition bound_of (cps : list var) (body : list ev) (r : option var) : nat :=
+  S (fold_left Nat.max (cps ++ flat_map ev_vars (expand body) ++ flat_map ev_vars body ++ match r with Some v => [v] | None => [] end) 0).
+
+Lemma split_ret_inv p b r : split_ret p = Some (b, r) -> p = b ++ [EReturn r].
+Proof.
+  unfold split_ret. destruct (rev p) as [|e l] eqn:E; [discriminate|]. destruct e; try discriminate.
+  intros H. inversion H; subst. rewrite <- (rev_involutive p), E. reflexivity.
+Qed.
+
+(* a path of g that fits the call site *)
+Definition pick (sk : list fn) (cps : list var) (pre : list ev) (g : nat) (args : list (option var))
+           (ret : option var) (k : nat) : option (fn * path) :=
+  match find (fun f => Nat.eqb (fn_id f) g) sk with
+  | Some f => match find (fun p => match split_ret p with
+                                  | Some (b, r) => site_okb cps (fn_params f) pre args ret k b r
+                                  | None => false
+                                  end) (fn_paths f) with
+              | Some p => Some (f, p)
+              | None => None
+              end
+  | None => None
+  end.
+
+(* replace call after call, leftmost first, by the first fitting path of the callee *)
+Fixpoint inline_all (fuel : nat) (sk : list fn) (cps : list var) (body : list ev) (r : option var) : option (list ev) :=
+  match fuel with
+  | 0 => None
+  | S n =>
+      match first_call body with
+      | None => Some body
+      | Some (pre, g, args, ret, post) =>
+          let k := bound_of cps body r in
+          match pick sk cps pre g args ret k with
+          | Some (f, p) =>
+              match split_ret p with
+              | Some (b, qr) => inline_all n sk cps (pre ++ inline (fn_params f) args ret k b qr ++ post) r
+              | None => None
+              end
+          | None => None
+          end
+      end
+  end.
+
+Lemma inline_all_Tree fuel sk : forall fid cps body r body',
+  Tree sk fid cps body r -> inline_all fuel sk cps body r = Some body' -> Tree sk fid cps body' r.
+Proof.
+  induction fuel as [|n IH]; intros fid cps body r body' T H; [discriminate|]. cbn [inline_all] in H.
+  destruct (first_call body) as [[[[[pre g] args] ret] post]|] eqn:Fc; [|inversion H; subst; exact T].
+  apply first_call_eq in Fc. subst body.
+  destruct (pick sk cps pre g args ret _) as [[f p]|] eqn:Pk; [|discriminate].
+  unfold pick in Pk. destruct (find (fun f0 => Nat.eqb (fn_id f0) g) sk) as [f0|] eqn:Ff; [|discriminate].
+  destruct (find _ (fn_paths f0)) as [p0|] eqn:Fp; [|discriminate]. inversion Pk; subst f0 p0. clear Pk.
+  apply find_some in Ff. destruct Ff as [If Eg]. apply Nat.eqb_eq in Eg.
+  apply find_some in Fp. destruct Fp as [Ip Sp].
+  destruct (split_ret p) as [[b qr]|] eqn:Es; [|discriminate].
+  apply split_ret_inv in Es. subst p.
+  eapply IH; [|exact H]. eapply T_inl; [exact T | | apply site_okb_ok; exact Sp].
+  rewrite <- Eg. apply T_base; auto.
+Qed.
